@@ -9,6 +9,8 @@
 //	   x price{0,1,10^9} x target{EOA, fresh empty account, sender itself (each also with proposer = sender), call(P),
 //	   create(P as init code)} for every program P of <= 2 (quick) / <= 3 (thorough) actions over an 18-token alphabet
 //	   (rejected points are not repeated for the longest programs, see the rule string).
+//	   Factory family: call(F) / call(wrapper->F) for 8 CREATE/CREATE2 factories with gas limits up to 2*10^7 and an exact
+//	   expected gas figure from the gas schedule; frame-level "no gas minted" accounting on every evaluation.
 //	path=commitBlock: the empty block, every single and every ordered pair of a 22-entry transaction menu (both forks),
 //	   each under the header gas limits {big, g2, g1+g2-1, used1+g2, used1+g2-1} that force pool exhaustion on the second.
 //
@@ -106,9 +108,12 @@ func hasSig(fs []finding, sig string) bool {
 type agg struct {
 	n        map[string]int64
 	distinct map[string]struct{}
+	combos   map[string]struct{}
 }
 
-func newAgg() *agg { return &agg{n: map[string]int64{}, distinct: map[string]struct{}{}} }
+func newAgg() *agg {
+	return &agg{n: map[string]int64{}, distinct: map[string]struct{}{}, combos: map[string]struct{}{}}
+}
 
 func (a *agg) flush() {
 	for k, v := range a.n {
@@ -117,6 +122,16 @@ func (a *agg) flush() {
 	for k := range a.distinct {
 		r.Distinct("distinct_nontrivial", k)
 	}
+	for k := range a.combos {
+		r.Distinct("factory_x_gas_x_depth_combinations_executed", k)
+	}
+}
+
+func gasNameOf(s txSpec) string {
+	if s.Target == tFactory {
+		return factoryGasNames[s.Gas]
+	}
+	return gasNames[s.Gas]
 }
 
 func (a *agg) record(res *txResult) {
@@ -132,7 +147,7 @@ func (a *agg) record(res *txResult) {
 		if res.poolLeak {
 			a.n["applytx_late_reject_left_gas_purchase_in_pool"]++
 		}
-		a.distinct[fmt.Sprintf("A|%s|%s|%s|%s|rejected:%s|residue=%v", forkNames[s.Fork], targetNames[s.Target], valueNames[s.Value], gasNames[s.Gas], res.class, res.residue)] = struct{}{}
+		a.distinct[fmt.Sprintf("A|%s|%s|%s|%s|rejected:%s|residue=%v", forkNames[s.Fork], targetNames[s.Target], valueNames[s.Value], gasNameOf(s), res.class, res.residue)] = struct{}{}
 		return
 	}
 	a.n["applytx_applied"]++
@@ -146,13 +161,27 @@ func (a *agg) record(res *txResult) {
 	if res.capBinds {
 		a.n["applytx_refund_cap_binding"]++
 	}
-	for i := uint(0); i < 10; i++ {
+	for i := uint(0); i < nOpBits; i++ {
 		if res.ops&(1<<i) != 0 {
 			a.n["ops_executed:"+opsString(1<<i)]++
 		}
 	}
-	a.distinct[fmt.Sprintf("A|%s|%s|%s|%s|%v|%s|cb=%v|%s|%s|burn=%v|refund=%v|cap=%v", forkNames[s.Fork], senderNames[s.Sender], valueNames[s.Value], gasNames[s.Gas],
-		prices[s.Price], targetNames[s.Target], s.CbSend, opsString(res.ops), res.status, res.burn.Sign() > 0, res.refund > 0, res.capBinds)] = struct{}{}
+	if s.Target == tFactory {
+		a.n["factory_applied:"+factoryName(s.Fact)]++
+		a.combos[factoryName(s.Fact)+"/"+factoryGasNames[s.Gas]+fmt.Sprintf("/via-call=%v", s.ViaCal)] = struct{}{}
+		if res.exactGas {
+			a.n["factory_exact_gas_figures_checked"]++
+		}
+	}
+	if res.creates > 0 {
+		a.n["applytx_create_steps_frame_gas_checked"] += int64(res.creates)
+	}
+	tn := targetNames[s.Target]
+	if s.Target == tFactory {
+		tn += ":" + factoryName(s.Fact) + fmt.Sprintf(":via-call=%v", s.ViaCal)
+	}
+	a.distinct[fmt.Sprintf("A|%s|%s|%s|%s|%v|%s|cb=%v|%s|%s|burn=%v|refund=%v|cap=%v", forkNames[s.Fork], senderNames[s.Sender], valueNames[s.Value], gasNameOf(s),
+		prices[s.Price], tn, s.CbSend, opsString(res.ops), res.status, res.burn.Sign() > 0, res.refund > 0, res.capBinds)] = struct{}{}
 	if s.CbSend {
 		a.n["applytx_applied_with_proposer_is_sender"]++
 	}
@@ -211,6 +240,9 @@ func main() {
 		"SELFDESTRUCT to another account, INVALID (burn all gas), SSTORE set, SSTORE clear (refund), STATICCALL-into-writer then write, CALL(each of the 9 one-action leaf contracts) with value 3}; P and the "+
 		"leaves hold value and a set storage slot in the pre-state. Stated exceptions (all counted): points whose 'balance-fee' would be negative are skipped; points that the checker's reference "+
 		"pre-check classifies as rejected are enumerated for creations with one-action init codes and for calls into programs of <= 2 actions only (a rejection never reads the target). "+
+		"Factory family (same path): call(F) and call(wrapper that CALLs F with all gas) for the 8 fixed factories F = {CREATE, CREATE2} x init code {empty, deploying one byte, burning (INVALID), reverting}, endowment 1, x fork x "+
+		"sender x value{0,1} x gasLimit{intrinsic+40000, 200000, 8*10^6, 2*10^7} x price{0,1,10^9}, correct nonce, pool 25*10^6 (1536 points); on the direct calls the gas used must equal the figure the checker computes from the gas schedule. "+
+		"On every executed frame of every evaluation: the frame's gas never rises between two of its steps and falls by >= the CREATE price + the init code's consumption after CREATE/CREATE2 (no gas minted across a child frame). "+
 		"path=commitBlock: the empty block, all singles and all ordered pairs of a 22-entry transaction menu (valid transfer/call/create/burn, next nonce, and one transaction per rejection class, for a rich and "+
 		"a poor sender) per fork, each under the header gas limits {10^7, g2, g1+g2-1, used1+g2, used1+g2-1} (singles {10^7, g1, g1-1}). "+
 		"Each evaluation runs the real ApplyTransaction / commitBlock on a copy of the real chain's head state (genesis with staking contract and validator) and sums ALL account leaves of the state trie. "+
@@ -227,6 +259,9 @@ func main() {
 		"A4 gas used before refund = checker-computed intrinsic gas + gas reported by the tracer's CaptureEnd for the top-level call/create.",
 		"A5 minted reward = BlockInfo.Rewards (the value Mint returned and credited to the staking contract); staking calls move value only between accounts.",
 		"A6 a failed execution (receipt status 0) returns the transferred value to the sender: sender loses gasUsed*price only.",
+		"A7 exact gas figures (direct calls into the 8 CREATE/CREATE2 factories) use this chain's schedule as it is: an opcode with a dynamic price part is charged its constant part twice under "+
+			"pre-Galaxias rules, CREATE2 charges no per-word hashing price, CREATE forwards all but one 64th; for CREATE2 with the burning init code both forwarding rules (everything / all but one 64th) are accepted. "+
+			"Independent of any schedule detail: between two steps of one frame its gas must fall by >= 32000 + the gas its init code consumed after CREATE/CREATE2, by >= callee's use - 2300 after a CALL, and never rise.",
 		"Trusted: go-kardia trie iteration and RLP decoding of account leaves, ECDSA signing/recovery, the staking contract byte code.",
 	)
 
@@ -306,6 +341,36 @@ func main() {
 	}
 	r.Set("phase_commitBlock_wall_s", time.Since(tPhase).Seconds())
 	tPhase = time.Now()
+	// ------------------------------------------------------------------ path = ApplyTransaction, factory family
+	// call(F) and call(wrapper -> F) for the 8 CREATE/CREATE2 factories x fork x sender x value{0,1} x gas{intrinsic+40000, 200000, 8*10^6, 2*10^7}
+	// x price{0,1,10^9}, correct nonce, pool 25*10^6.
+	{
+		fr := []int{nPrices, len(factoryGasNames), 2, nSenders, nForks, 2, nFactories}
+		pre := buildPre(nil)
+		var preMu sync.Mutex
+		_ = preMu
+		nF := par.Product(fr)
+		doneF := par.For(nF, 16, r.Expired, func(i int64) {
+			d := make([]int, len(fr))
+			par.MixedRadix(i, fr, d)
+			spec := txSpec{Path: "ApplyTransaction", Fork: d[4], Sender: d[3], Nonce: 1, Value: d[2], Gas: d[1], Price: d[0], Target: tFactory, Fact: d[6], ViaCal: d[5] == 1}
+			tx, c, ok := spec.build()
+			if !ok {
+				return
+			}
+			a := newAgg()
+			res := evalTx(pre, spec, tx, c)
+			a.record(res)
+			for _, f := range res.finds {
+				note(f.sig, f.what, int64(1)<<39|i, replayCase{Path: "ApplyTransaction", Tx: &spec})
+			}
+			a.flush()
+		})
+		if doneF < nF {
+			r.NotExhaustive(fmt.Sprintf("deadline: %d of %d points of the factory family finished", doneF, nF))
+		}
+		r.Set("factory_points", nF)
+	}
 	// ------------------------------------------------------------------ path = ApplyTransaction
 	progs := append([][]int{nil}, allPrograms(maxLen)...) // unit 0: the program-independent targets
 	radices := []int{nPrices, nGas, nValues, nNonces, nSenders, nForks}
@@ -417,9 +482,16 @@ func main() {
 	for _, k := range []string{"eoa/ok", "fresh-empty/ok", "self/ok", "call-contract/ok", "call-contract/failed", "create/ok", "create/failed"} {
 		r.Require(r.Get("applytx_applied:"+k) > 0, "no applied transaction of kind "+k)
 	}
-	for i := uint(0); i < 10; i++ {
+	for i := uint(0); i < nOpBits; i++ {
 		r.Require(r.Get("ops_executed:"+opsString(1<<i)) > 0, "action opcode never executed: "+opsString(1<<i))
 	}
+	for k := 0; k < nFactories; k++ {
+		r.Require(r.Get("factory_applied:"+factoryName(k)) > 0, "factory "+factoryName(k)+" never executed")
+	}
+	r.Require(r.DistinctCount("factory_x_gas_x_depth_combinations_executed") == nFactories*len(factoryGasNames)*2 || r.Expired(),
+		"not every (factory, gas limit, direct/wrapped) combination executed")
+	r.Require(r.Get("factory_exact_gas_figures_checked") > 0, "no exact gas figure was checked")
+	r.Require(r.Get("applytx_create_steps_frame_gas_checked") > 0, "no CREATE/CREATE2 step had its frame gas accounting checked")
 	r.Require(r.Get("applytx_value_destroyed_by_selfdestruct_to_self") > 0, "no execution destroyed value by self-destruct-to-self")
 	r.Require(r.Get("applytx_refund_granted") > 0, "no execution earned a refund")
 	r.Require(r.Get("applytx_refund_cap_binding") > 0, "the refund counter never exceeded half of the gas used (cap never binding)")
@@ -461,7 +533,7 @@ func main() {
 	sample(replayCase{Path: "ApplyTransaction", Tx: &txSpec{Path: "ApplyTransaction", Fork: 1, Sender: 0, Nonce: 1, Value: 1, Gas: 3, Price: 2, Target: tCall, Prog: []int{aCall + aSDSelf, aSClear}}})
 	sample(replayCase{Path: "ApplyTransaction", Tx: &txSpec{Path: "ApplyTransaction", Fork: 0, Sender: 1, Nonce: 1, Value: 2, Gas: 3, Price: 2, Target: tCreate, Prog: []int{aCreate, aSDOther}}})
 	sample(replayCase{Path: "ApplyTransaction", Tx: &txSpec{Path: "ApplyTransaction", Fork: 1, Sender: 0, Nonce: 1, Value: 4, Gas: 1, Price: 1, Target: tEOA}})
-	sample(replayCase{Path: "ApplyTransaction", Tx: &txSpec{Path: "ApplyTransaction", Fork: 1, Sender: 0, Nonce: 0, Value: 1, Gas: 3, Price: 1, Target: tEmpty}})
+	sample(replayCase{Path: "ApplyTransaction", Tx: &txSpec{Path: "ApplyTransaction", Fork: 1, Sender: 0, Nonce: 1, Value: 1, Gas: 3, Price: 1, Target: tFactory, Fact: fCreate2*nFactoryInits + iDeploy}})
 	{
 		names := func(f int, idx []int) (n []string) {
 			for _, i := range idx {
